@@ -68,3 +68,4 @@ pub(crate) fn c02_erased_props_equals_generic() {
     }
     kani::cover!(true);
 }
+
